@@ -13,6 +13,7 @@ THEOREMS = [
     "Cog.Sem.Src.widen_chain", "Cog.Sem.Src.nr_widen", "Cog.Sem.Src.PrefixEnumValues_den",
     "Cog.Sem.C01_pass_widening_nullable_partial", "Cog.Sem.C01_source_roundtrip_nullable_partial",
     "Cog.Sem.Src.widen_chainN", "Cog.Sem.Src.nr_widenN", "Cog.Sem.Src.null_widen", "Cog.Sem.Src.xden_mono",
+    "Cog.Sem.C01_pass_widening_counterexample",
 ]
 
 
@@ -80,7 +81,7 @@ def pass_widening_tie(c, hb):
           "nonplain_valid_in_srcDen_and_den_real": 0, "invalid": 0, "invalid_in_srcDen": 0, "bad_replies": 0,
           "plain_only_documents": 0, "plain_only_in_srcDen": 0}
     why, whyx, notplain = {}, {}, {}
-    b_fail, unsound, m_fail = [], [], []
+    b_fail, unsound, m_fail, pinned = [], [], [], []
     for r in rows:
         if r[0] == "-":
             if r[1].startswith("case "):
@@ -97,6 +98,9 @@ def pass_widening_tie(c, hb):
         d = dict(kv.split("=", 1) for kv in m.split(" "))
         cid = r[0].split(" ")[3]
         valid = "valid=true" in r[1]
+        if r[1].endswith("doc=pinned"):
+            pinned.append((r, m, valid and d["src"] == "true" and d["den"] == "false" and d["mden"] == "false"))
+            continue
         if cid not in cases:
             cases[cid] = (d["plainN"] == "true", d["plain"] == "true")
             if d["plainN"] != "true":
@@ -151,6 +155,8 @@ def pass_widening_tie(c, hb):
     nplain_only = len([1 for v in cases.values() if v[1]])
     c.oblige("c01-src (b): PlainN ∧ srcDen ⇒ den on the REAL post-chain IR (%d documents of %d cases in the proved fragment, %d of them without `T | null`)" % (st["plain_in_srcDen"], nplain, nplain_only), not b_fail and not m_fail)
     c.oblige("c01-src (a'): srcDen accepts no document the reference validator rejects (%d invalid documents)" % st["invalid"], not unsound)
+    c.oblige("witness of C01_pass_widening_counterexample replays on the real front-end and passes (source-valid, in srcDen, not in den of the real post-chain IR nor of the model's)",
+             len(pinned) == 1 and all(p[2] for p in pinned), [(p[0][1], p[1]) for p in pinned] or "pinned row missing")
     c.oblige("c01-src is not vacuous (plain cases, documents in srcDen, fault documents)", nplain >= 10 and st["plain_in_srcDen"] >= 100 and st["invalid"] >= 100,
              "plain cases %d, plain documents in srcDen %d, invalid documents %d" % (nplain, st["plain_in_srcDen"], st["invalid"]))
     c.count("c01-src", len(rows), [r[0] for r in rows if r[0].startswith("srcden ") and r[0].count("(") >= 6],
@@ -176,6 +182,13 @@ def main():
     ]
     hb, err = build_go("verifharness", "harness", files=HARNESS_BASE + ["lab_*.go", "src_*.go", "c01.go", "c01_src.go"], tag="c01")
     c.oblige("harness builds against /repo working tree", hb is not None, err)
+    # (c) pass widening speaks about the Go chain the code runs: regenerate Cog/Gen/Chains.lean (C06's extractor)
+    try:
+        from verifkit import gen_c06
+        okc, detail = gen_c06.regen()
+    except Exception as e:
+        okc, detail = False, "gen_c06.regen failed: %s" % e
+    c.oblige("Cog/Gen/Chains.lean regenerated from the CompilerPasses() of internal/jennies/* (the chain of C01_pass_widening_*)", okc, detail)
     c.lean_obligations(THEOREMS)
     if hb is None:
         c.finish("lake build", "n/a")
